@@ -158,8 +158,12 @@ fn run_sync_validators(
     }
 
     let mut violations = HashMap::new();
+    #[cfg(feature = "verif")]
+    crate::verif_trace::emit("sync_spawned", serde_json::json!({"n": handles.len()}));
     for handle in handles {
         let result = handle.join();
+        #[cfg(feature = "verif")]
+        crate::verif_trace::emit("join", verif_result_summary("sync", &result));
         match result {
             Ok(Ok(file_violations)) => {
                 for (file_path, file_violations) in file_violations {
@@ -168,6 +172,8 @@ fn run_sync_validators(
                         .or_insert_with(Vec::new)
                         .extend(file_violations);
                 }
+                #[cfg(feature = "verif")]
+                crate::verif_trace::emit("merge", verif_acc_summary("sync", &violations));
             }
             Ok(Err(e)) => return Err(e),
             Err(e) => return Err(anyhow::anyhow!("Failed to run validation: {e:?}")),
@@ -191,7 +197,11 @@ fn run_async_validators(
         }
 
         let mut violations = HashMap::new();
+        #[cfg(feature = "verif")]
+        crate::verif_trace::emit("async_spawned", serde_json::json!({"n": tasks.len()}));
         while let Some(result) = tasks.join_next().await {
+            #[cfg(feature = "verif")]
+            crate::verif_trace::emit("join", verif_result_summary("async", &result));
             match result {
                 Ok(Ok(file_violations)) => {
                     for (file_path, file_violations) in file_violations {
@@ -200,6 +210,8 @@ fn run_async_validators(
                             .or_insert_with(Vec::new)
                             .extend(file_violations);
                     }
+                    #[cfg(feature = "verif")]
+                    crate::verif_trace::emit("merge", verif_acc_summary("async", &violations));
                 }
                 Ok(Err(e)) => return Err(e),
                 Err(e) => return Err(anyhow::anyhow!("Failed to run validation: {e}")),
@@ -216,6 +228,11 @@ pub fn run(
     sync_validators: Vec<Box<dyn ValidatorSync>>,
     async_validators: Vec<Box<dyn ValidatorAsync>>,
 ) -> anyhow::Result<HashMap<PathBuf, Vec<Violation>>> {
+    #[cfg(feature = "verif")]
+    crate::verif_trace::emit(
+        "run_start",
+        serde_json::json!({"sync": sync_validators.len(), "async": async_validators.len()}),
+    );
     if async_validators.is_empty() {
         return run_sync_validators(context, sync_validators);
     }
@@ -241,8 +258,45 @@ pub fn run(
             .or_insert_with(Vec::new)
             .extend(file_violations);
     }
+    #[cfg(feature = "verif")]
+    crate::verif_trace::emit("merge", verif_acc_summary("final", &violations));
 
     Ok(violations)
+}
+
+/// Trace-only summary of one validator's result: per-file lists of `[code, line, severity]`.
+#[cfg(feature = "verif")]
+fn verif_result_summary<E: std::fmt::Debug>(
+    side: &str,
+    result: &Result<anyhow::Result<HashMap<PathBuf, Vec<Violation>>>, E>,
+) -> serde_json::Value {
+    match result {
+        Ok(Ok(v)) => {
+            let mut s = verif_acc_summary(side, v);
+            s["result"] = "ok".into();
+            s
+        }
+        Ok(Err(e)) => serde_json::json!({"side": side, "result": "err", "error": format!("{e:#}")}),
+        Err(e) => serde_json::json!({"side": side, "result": "panic", "error": format!("{e:?}")}),
+    }
+}
+
+/// Trace-only summary of an accumulator: per-file lists of `[code, line, severity]`.
+#[cfg(feature = "verif")]
+fn verif_acc_summary(side: &str, acc: &HashMap<PathBuf, Vec<Violation>>) -> serde_json::Value {
+    let files: serde_json::Map<String, serde_json::Value> = acc
+        .iter()
+        .map(|(path, violations)| {
+            (
+                path.display().to_string(),
+                violations
+                    .iter()
+                    .map(|v| serde_json::json!([v.code, v.range.start.line, v.range.start.character, v.severity as u8]))
+                    .collect(),
+            )
+        })
+        .collect();
+    serde_json::json!({"side": side, "files": files})
 }
 
 type SyncValidators = Vec<Box<dyn ValidatorSync>>;
@@ -287,29 +341,94 @@ pub fn detect_validators(
         .collect();
     let mut sync_validators = Vec::new();
     let mut async_validators = Vec::new();
+    // Shadow stack of detector names mirroring `validator_detectors` (trace only).
+    #[cfg(feature = "verif")]
+    let mut verif_names: Vec<&str> = detectors
+        .iter()
+        .map(|(validator_name, _)| *validator_name)
+        .filter(|validator_name| {
+            if !enabled_validators.is_empty() {
+                enabled_validators.contains(validator_name)
+            } else {
+                !disabled_validators.contains(validator_name)
+            }
+        })
+        .collect();
+    #[cfg(feature = "verif")]
+    crate::verif_trace::emit(
+        "detect_start",
+        serde_json::json!({"stack": verif_names, "n": validator_detectors.len(),
+            "enabled": enabled_validators.iter().collect::<Vec<_>>(),
+            "disabled": disabled_validators.iter().collect::<Vec<_>>()}),
+    );
     'outer: for file_blocks in context.blocks.values() {
         for block in &file_blocks.blocks_with_context {
             let mut undetected = Vec::new();
+            #[cfg(feature = "verif")]
+            let mut verif_undetected: Vec<&str> = Vec::new();
+            #[cfg(feature = "verif")]
+            crate::verif_trace::emit(
+                "visit_block",
+                serde_json::json!({"line": block.block.start_tag_position_range.start().line,
+                    "attrs": block.block.attributes.keys().collect::<Vec<_>>(),
+                    "content_mod": block.is_content_modified,
+                    "stack": validator_detectors.len()}),
+            );
             while let Some(detector) = validator_detectors.pop() {
+                #[cfg(feature = "verif")]
+                let verif_name = verif_names.pop().unwrap_or("?");
                 match detector.detect(block)? {
                     Some(ValidatorType::Sync(validator)) => {
+                        #[cfg(feature = "verif")]
+                        crate::verif_trace::emit(
+                            "detected",
+                            serde_json::json!({"v": verif_name, "kind": "sync"}),
+                        );
                         sync_validators.push(validator);
                     }
                     Some(ValidatorType::Async(validator)) => {
+                        #[cfg(feature = "verif")]
+                        crate::verif_trace::emit(
+                            "detected",
+                            serde_json::json!({"v": verif_name, "kind": "async"}),
+                        );
                         async_validators.push(validator);
                     }
                     None => {
+                        #[cfg(feature = "verif")]
+                        {
+                            crate::verif_trace::emit(
+                                "undetected",
+                                serde_json::json!({"v": verif_name}),
+                            );
+                            verif_undetected.push(verif_name);
+                        }
                         undetected.push(detector);
                     }
                 }
             }
             if undetected.is_empty() {
                 // All validators have been detected.
+                #[cfg(feature = "verif")]
+                crate::verif_trace::emit("break_all", serde_json::json!({}));
                 break 'outer;
+            }
+            #[cfg(feature = "verif")]
+            {
+                crate::verif_trace::emit(
+                    "push_back",
+                    serde_json::json!({"stack": verif_undetected}),
+                );
+                verif_names.extend(verif_undetected);
             }
             validator_detectors.extend(undetected);
         }
     }
+    #[cfg(feature = "verif")]
+    crate::verif_trace::emit(
+        "detect_done",
+        serde_json::json!({"sync": sync_validators.len(), "async": async_validators.len()}),
+    );
     Ok((sync_validators, async_validators))
 }
 
